@@ -6,7 +6,8 @@ open Emboss.Constraints Driver Lean
 /-!
 Line protocol of `model_c14`:
 
-  CHECK <json program>      → `errors k1;k2;…` (sorted kinds of `check`) or `errors` if none
+  CHECK <json program>      → `errors k1;k2;…` (kinds of `check`, IN ORDER) or `errors` if none
+  BYTEORDER <json program>  → `bo <typeid>.<field>=<byte order|->;…` (`fieldByteOrders`)
   REQ <json sexpr> <size|none> → `true` / `false`      (`reqMet`)
   RESERVED <word>           → `true` / `false`
   BACKENDS <json string>    → `true` / `false`         (`validBackEnds`)
@@ -166,9 +167,48 @@ partial def forestOfJson (js : List Json) : P Forest := do
     let sib ← forestOfJson rest
     pure (.node t ch sib)
 
+def extOfJson (j : Json) : P Emboss.Bounds.ExtInt := do
+  let s ← j.getStr?
+  if s == "-inf" then pure .negInf
+  else if s == "inf" then pure .posInf
+  else match s.toInt? with
+    | some i => pure (.fin i)
+    | none => throw s!"bad bound {s}"
+
+def atypeOfJson (j : Json) : P Emboss.Bounds.AType := do
+  match ← arr j with
+  | [k, lo, hi, m] => do
+    if (← k.getStr?) != "int" then throw "bad atype"
+    let ms ← m.getStr?
+    let modulus : Emboss.Bounds.Modulus ←
+      if ms == "inf" then pure Emboss.Bounds.Modulus.inf
+      else match ms.toNat? with
+        | some n => pure (Emboss.Bounds.Modulus.fin n)
+        | none => throw s!"bad modulus {ms}"
+    pure (.int ⟨← extOfJson lo, ← extOfJson hi, modulus, .fin 0⟩)
+  | [k, c] => do
+    let isConst ← c.getBool?
+    match ← k.getStr? with
+    | "bool" => pure (.bool (if isConst then some true else none))
+    | "enum" => pure (.enum (if isConst then some 0 else none))
+    | s => throw s!"bad atype {s}"
+  | _ => throw "bad atype"
+
+partial def atreeOfJson (j : Json) : P Emboss.Bounds.ATree := do
+  match ← arr j with
+  | [f, t, args] => do
+    pure (.node (← f.getBool?) (← atypeOfJson t) (← (← arr args).mapM atreeOfJson))
+  | _ => throw "bad atree"
+
 def moduleOfJson (j : Json) : P Emboss.Constraints.Module := do
+  let gated ← match j.getObjVal? "gated" with
+    | .ok g => (← arr g).mapM (fun x => do
+        match ← arr x with
+        | [syn, t] => do pure ((← syn.getBool?), (← atreeOfJson t))
+        | _ => throw "bad gated")
+    | .error _ => pure []
   pure { attrs := ← attrsOf j, types := ← forestOfJson (← arr (← j.getObjVal? "types")),
-         staticRefs := ← (← arr (← j.getObjVal? "refs")).mapM (·.getBool?) }
+         staticRefs := ← (← arr (← j.getObjVal? "refs")).mapM (·.getBool?), gated := gated }
 
 def programOfJson (j : Json) : P Program := do
   (← arr j).mapM moduleOfJson
@@ -194,6 +234,16 @@ def showEK : EK → String
   | .reservedType => "reserved-type"
   | .staticRef => "static-ref" | .enumValueRange => "enum-value-range"
   | .paramBounds => "param-bounds" | .crash => "crash"
+  | .gate .unbounded => "gate:unbounded" | .gate .constTooBig => "gate:const"
+  | .gate .rangeTooBig => "gate:range" | .gate .mixed => "gate:mixed"
+
+def showBO : Nat × String × Option AVal → String
+  | (id, name, v) =>
+    let vs := match v with
+      | some (.str s) => s
+      | some _ => "?"
+      | none => "-"
+    s!"{id}.{name}={vs}"
 
 def insertSorted (s : String) : List String → List String
   | [] => [s]
@@ -214,8 +264,14 @@ def handle (line : String) : String :=
   | "CHECK" =>
     match Json.parse rest >>= programOfJson with
     | .ok p =>
-      let ks := sortStrings ((check p).map showEK)
+      let ks := (check p).map showEK
       if ks.isEmpty then "errors" else "errors " ++ ";".intercalate ks
+    | .error _ => "bad-op"
+  | "BYTEORDER" =>
+    match Json.parse rest >>= programOfJson with
+    | .ok p =>
+      let ks := (fieldByteOrders p).map showBO
+      if ks.isEmpty then "bo" else "bo " ++ ";".intercalate ks
     | .error _ => "bad-op"
   | "REQ" =>
     let (sz, js) := splitFirst rest
